@@ -42,6 +42,7 @@ type c13Obs struct {
 	sdisc       int
 	lateSendRet bool
 	connLog     string
+	alivePre    []string // acceptor: library tasks of the ended connection still alive BEFORE the acceptor is closed
 	alive       []vsched.Leak
 	logged      bool
 	steps       int
@@ -186,7 +187,14 @@ func c13Body(c c13Case, o *c13Obs) {
 	time.Sleep(30 * time.Second)
 	vsched.Settle()
 	if acc != nil && c.Cause != "close" {
-		// the acceptor itself keeps listening after one connection ended; closing it must end everything
+		// the acceptor itself keeps listening after one connection ended, but everything that belongs to
+		// the ended connection must be gone by now (only the accept loop may remain) ...
+		for _, t := range libTasks(vsched.Alive()) {
+			if !strings.HasSuffix(t, "@accept") {
+				o.alivePre = append(o.alivePre, t)
+			}
+		}
+		// ... and closing the acceptor must end the rest
 		acc.Close()
 		time.Sleep(10 * time.Second)
 		vsched.Settle()
@@ -233,6 +241,9 @@ func c13Check(c c13Case, o *c13Obs) (string, string) {
 	}
 	if !o.lateSendRet {
 		return "later-send-blocks" + blk, det
+	}
+	if len(o.alivePre) > 0 {
+		return "connection-tasks-outlive-the-connection:" + strings.Join(uniq(o.alivePre), "+"), det
 	}
 	if len(lib) > 0 {
 		return "tasks-left" + blk, det
